@@ -5,7 +5,14 @@ rate_<MODE>(p, state, params, [volume,] time) is an uninterpreted function stand
 returns in that mode"; for each concrete class it is pinned to the closed form by contracts/types_propensities.py.
 The four modes are four DIFFERENT symbols, so an interface loop that calls the wrong mode cannot verify.
 """
-from bsvc.contracts import fuc
+from bsvc.contracts import fuc, field_hint
+from bsvc.terms import REAL
+
+field_hint('CSimInterface.update_array', ndim=2, elem=REAL)
+field_hint('CSimInterface.delay_update_array', ndim=2, elem=REAL)
+field_hint('CSimInterface.initial_state', ndim=1, elem=REAL)
+field_hint('CSimInterface.propensity_buffer', ndim=1, elem=REAL)
+field_hint('ModelCSimInterface.np_param_values', ndim=1, elem=REAL)
 
 PROPS = ['C01', 'C03', 'C05', 'C06', 'C09', 'C10', 'C11']
 MODES = {'DET': ('get_propensity', 'compute_propensities', ''),
